@@ -463,7 +463,7 @@ def ac6_layout(model: Model, fc: FnCls, R: RuleResult, external_only: bool = Tru
             continue  # AC1 reports it
         n += 1
         where = "%s.apply in %s" % (fc.name, f.qualname)
-        if len(stars) != nseg:
+        if len(stars) > nseg or len(stars) < len(slots):
             R.bad(f, enclosing_stmt(c), "%s passes %d starred segments but forward splits *%s into %d" % (where, len(stars), fc.vararg, nseg))
             continue
         ok = True
